@@ -220,3 +220,25 @@ B('C09', 'contracts ignored by default', (D, "                 ignore_contract: 
 B('C09', 'gate inverted', (D, "        if self._ignore_contract:\n            return\n\n        exception_klass", "        if not self._ignore_contract:\n            return\n\n        exception_klass"))
 B('C09', 'evaluating a contract records a sent event', (PY, "        if code is None:\n            return True\n", "        if code is None:\n            return True\n        self._interpreter._sent_events.append(None)\n"))
 T('C09', 'gate with explicit None', (D, "        if self._ignore_contract:\n            return\n\n        exception_klass", "        if self._ignore_contract:\n            return None\n\n        exception_klass"))
+
+# ---------------------------------------------------------------- C10
+B('C10', 'state exited emission dropped', (D, "            # Notify properties\n            self._raise_event(MetaEvent('state exited', state=state.name))\n", ""))
+B('C10', 'attribute renamed', (D, "self._raise_event(MetaEvent('state entered', state=state.name))", "self._raise_event(MetaEvent('state entered', name=state.name))"))
+B('C10', 'emission before its action', (D, "            # Update configuration\n            self._configuration.add(state.name)\n            self._entry_time[state.name] = self.time\n            self._idle_time[state.name] = self.time\n\n            # Notify properties\n            self._raise_event(MetaEvent('state entered', state=state.name))",
+   "            self._raise_event(MetaEvent('state entered', state=state.name))\n            self._configuration.add(state.name)\n            self._entry_time[state.name] = self.time\n            self._idle_time[state.name] = self.time"))
+B('C10', 'delivery loop with early exit', (D, "            for listener in self._listeners:\n                listener(event)", "            for listener in self._listeners:\n                listener(event)\n                break"))
+B('C10', 'listener without the raise', (LI, "        if self._interpreter.final:\n            raise PropertyStatechartError(self._interpreter)", "        if self._interpreter.final:\n            pass"))
+B('C10', 'try/except around the listener call', (D, "            for listener in self._listeners:\n                listener(event)", "            for listener in self._listeners:\n                try:\n                    listener(event)\n                except Exception:\n                    pass"))
+B('C10', 'SimulatedClock for the property interpreter', (D, "interpreter = interpreter_klass(statechart, clock=SynchronizedClock(self))", "interpreter = interpreter_klass(statechart, clock=SimulatedClock())"))
+B('C10', 'SynchronizedClock reads clock.time', (CK, "        return self._interpreter.time", "        return self._interpreter.clock.time"))
+B('C10', 'duplicated emission', (D, "        self._raise_event(MetaEvent('step ended'))\n\n        return macro_step", "        self._raise_event(MetaEvent('step ended'))\n        self._raise_event(MetaEvent('step ended'))\n\n        return macro_step"))
+B('C10', 'step started carries clock time', (D, "self._raise_event(MetaEvent('step started', time=self.time))", "self._raise_event(MetaEvent('step started', time=self.clock.time))"))
+B('C10', 'event consumed carries the peeked name only', (D, "self._raise_event(MetaEvent('event consumed', event=event))", "self._raise_event(MetaEvent('event consumed', event=event.name))"))
+B('C10', 'step ended skipped for empty steps', (D, "        self._raise_event(MetaEvent('step ended'))\n\n        return macro_step", "        if macro_step is not None:\n            self._raise_event(MetaEvent('step ended'))\n\n        return macro_step"))
+B('C10', 'listener executes a single step', (LI, "        self._interpreter.execute()", "        self._interpreter.execute(max_steps=1)"))
+B('C10', 'listeners called in reverse order', (D, "            for listener in self._listeners:\n                listener(event)", "            for listener in reversed(self._listeners):\n                listener(event)"))
+B('C10', 'property interpreter given the monitored one', (D, "        listener = PropertyStatechartListener(interpreter)\n        self.attach(listener)", "        interpreter._monitored = self\n        listener = PropertyStatechartListener(interpreter)\n        self.attach(listener)"))
+B('C10', 'transition processed before the action', (D, "            sent_events.extend(self._evaluator.execute_action(step.transition, step.event))\n\n            # Postconditions and invariants", "            self._raise_event(MetaEvent('transition processed', source=step.transition.source, target=step.transition.target, event=step.event))\n            sent_events.extend(self._evaluator.execute_action(step.transition, step.event))\n\n            # Postconditions and invariants"))
+B('C10', 'attach inserts at the front', (D, "        self._listeners.append(listener)", "        self._listeners.insert(0, listener)"))
+B('C10', 'property error swallowed by execute', (D, "        macro_step = self.execute_once()\n        while macro_step:", "        try:\n            macro_step = self.execute_once()\n        except Exception:\n            macro_step = None\n        while macro_step:"))
+T('C10', 'named listener variable', (D, "            for listener in self._listeners:\n                listener(event)", "            for callback in self._listeners:\n                callback(event)"))
